@@ -55,8 +55,6 @@ def invariant(w, workload_has_jumps, bus_log, where):
         if now in NATURAL and ent not in have:
             if workload_has_jumps:
                 continue  # force-marked by a jump: outside the log by the property's wording
-            if kind == "stage" and view.stages[lab]["ctx"].get("beforeStagePlanningFailed"):
-                continue
             v.append({"kind": "committed-completion-without-event", "entity": lab, "entity_kind": kind, "status": now,
                       "sig": f"missing-event:{kind}:{now}"})
     durable = set(seqs)
@@ -72,7 +70,7 @@ def invariant(w, workload_has_jumps, bus_log, where):
 
 
 WLS = [wl("chain3"), wl("diamond"), wl("multitask"), wl("fail_mid"), wl("raise_mid"), wl("continue_on_fail"),
-       wl("skip_stage"), wl("poll", 1), wl("transient", 1, True), wl("synthetic"), wl("or_split_join"),
+       wl("skip_stage"), wl("poll", 1), wl("transient", 1, True), wl("synthetic"), wl("synthetic_raise"), wl("or_split_join"),
        wl("fail_branch"), wl("jump_cycle", 2, 1)]
 FAULT_WLS = [wl("chain3"), wl("multitask"), wl("fail_mid"), wl("continue_on_fail"), wl("diamond"), wl("synthetic")]
 
